@@ -83,6 +83,7 @@ const (
 	FAllKinds     = "all_scalar_kinds"
 	FMultiService = "multi_service"
 	FNameShapes   = "name_shapes"
+	FSharedPath   = "shared_path_across_verbs"
 	FInt64Number  = "ann_int64_number"
 	FEnumValue    = "ann_enum_value"
 	FEnumNumber   = "ann_enum_number"
@@ -110,7 +111,7 @@ const (
 )
 
 var SafeFeatures = []string{FBasePath, FPathVars, FQuery, FQueryOnBody, FHeadersSvc, FHeadersMeth, FHeaderOverride, FNested, FRecursive,
-	FEnum, FMap, FOneof, FOptional, FRepeated, FTimestamp, FBytes, FRules, FCustomError, FAllKinds, FMultiService, FNameShapes}
+	FEnum, FMap, FOneof, FOptional, FRepeated, FTimestamp, FBytes, FRules, FCustomError, FAllKinds, FMultiService, FNameShapes, FSharedPath}
 
 var AnnotationFeatures = []string{FInt64Number, FEnumValue, FEnumNumber, FNullable, FEmptyBehav, FTsFormat, FBytesEnc, FFlatten, FOneofDisc, FUnwrap}
 
@@ -139,6 +140,13 @@ type g struct {
 	usedHdrM map[string]bool
 	svcHdr   map[string]*spec.Header
 	lastMethHdr map[string]string
+	prevPath    map[string]*sharedPath // per service: last explicit path and its variables
+}
+
+type sharedPath struct {
+	path  string
+	vars  []*spec.Field
+	verbs map[string]bool
 }
 
 type route struct {
@@ -548,10 +556,31 @@ func (x *g) method(s *spec.Service, name string, idx int, usedRoutes map[string]
 	}
 	bodyless := verb == "GET" || verb == "DELETE"
 
+	// the same path template under another verb (GET/PUT/DELETE on /items/{id})
+	var shared *sharedPath
+	if x.has(FSharedPath) && m.HasConfig && !x.has(RVerbOnly) && !x.has(RDefaultPath) && x.prevPath[s.Name] != nil && x.r.chance(1, 2) {
+		sp := x.prevPath[s.Name]
+		bpre := ""
+		if s.BasePath != nil {
+			bpre = *s.BasePath
+		}
+		for _, v := range []string{"PATCH", "PUT", "POST", "DELETE", "GET"} {
+			if !sp.verbs[v] && !x.conflicts(v, segsOf(spec.JoinPath(bpre, sp.path))) {
+				shared = sp
+				verb, m.Verb = v, v
+				sp.verbs[v] = true
+				break
+			}
+		}
+		bodyless = verb == "GET" || verb == "DELETE"
+	}
 	// path
 	nVars := 0
 	if x.has(FPathVars) && m.HasConfig && !x.has(RVerbOnly) {
 		nVars = x.r.intn(4)
+	}
+	if shared != nil {
+		nVars = 0
 	}
 	if x.has(RPathQueryTS) || x.has(RPathVarDigit) {
 		nVars = 1
@@ -592,7 +621,23 @@ func (x *g) method(s *spec.Service, name string, idx int, usedRoutes map[string]
 			}
 		}
 	}
-	if m.HasConfig && !x.has(RVerbOnly) {
+	if shared != nil {
+		for _, v := range shared.vars {
+			cp := *v
+			cp.Number = num
+			num++
+			taken[cp.Name] = true
+			req.Fields = append(req.Fields, &cp)
+			vars = append(vars, cp.Name)
+		}
+		nVars = len(vars)
+		m.Path = shared.path
+		bpth := ""
+		if s.BasePath != nil {
+			bpth = *s.BasePath
+		}
+		x.routes = append(x.routes, route{verb, segsOf(spec.JoinPath(bpth, m.Path))})
+	} else if m.HasConfig && !x.has(RVerbOnly) {
 		p := strings.Join(segs, "/")
 		if !x.has(RPathNoSlash) {
 			p = "/" + p
@@ -610,8 +655,19 @@ func (x *g) method(s *spec.Service, name string, idx int, usedRoutes map[string]
 				p += "/{" + v + "}"
 			}
 		}
+		for x.conflicts(verb, full(p)) {
+			p += "/z" // a longer template cannot overlap the shorter ones
+		}
 		x.routes = append(x.routes, route{verb, full(p)})
 		m.Path = p
+		if x.prevPath == nil {
+			x.prevPath = map[string]*sharedPath{}
+		}
+		var pv []*spec.Field
+		for _, vn := range vars {
+			pv = append(pv, req.Field(vn))
+		}
+		x.prevPath[s.Name] = &sharedPath{path: p, vars: pv, verbs: map[string]bool{verb: true}}
 	}
 
 	// query
